@@ -3,17 +3,18 @@
 # Runs every quick check against confirmed seeded changes (scratch worktrees; /repo untouched)
 # and records in seeded/cross_matrix.txt which checks catch which changes.
 cd /verif
+export LC_ALL=C
 ALL="C01 C02 C03 C04 C05 C06 C07 C08 C09 C10 C11 C12 C13 C14 C15 C16 C17 C18 C19 C20"
 out=/verif/seeded/cross_matrix.txt; touch $out
 ids="$@"
 if [ -z "$ids" ]; then
-  for d in seeded/C*-*/; do id=$(basename $d); grep -q "^$id " $out || ids="$ids $id"; done
+  for d in seeded/C*-*/; do id=$(basename $d); grep -aq "^$id " $out || ids="$ids $id"; done
 fi
 for id in $ids; do
   d=seeded/$id
   res=$(SKIP_SUITE=1 QUICK_ONLY=1 nice -n 10 tools/try_seeded.sh $d/patch.diff - $ALL 2>&1 | grep -a '^RESULT check=')
   caught=$(echo "$res" | grep -a CAUGHT | sed 's/RESULT check=\([A-Z0-9]*\).*/\1/' | tr '\n' ' ')
-  grep -v "^$id " $out > $out.tmp; mv $out.tmp $out
+  grep -av "^$id " $out > $out.tmp; mv $out.tmp $out
   echo "$id caught_by_quick: $caught" | tee -a $out
   sort -o $out $out
 done
